@@ -32,6 +32,12 @@ def cases(tier, seed):
     for shape in BIG + ([(5003, 40, 50), (100003, 2, 40)] if tier == "thorough" else []):
         for dt in ("float64", "float32"):
             yield {"shape": list(shape), "dtype": dt}
+    for shape in ((61, 2, 3), (45, 1, 4), (90, 3, 5)):
+        for dt, units in (("float64", (1e-170, 1e-30, 1e-6, 1e30, 1e150)), ("float32", (1e-30, 1e-6, 1e30))):
+            for unit in units:
+                for init in ("random", "k-means++"):
+                    for rs in (0, 1):
+                        yield {"shape": list(shape), "dtype": dt, "unit": unit, "init": init, "max_iter": 300, "rs": rs}
 
 
 BIG = [(1101, 10, 100), (2501, 40, 50), (701, 64, 100), (40001, 2, 60), (9001, 3, 33)]
@@ -49,18 +55,23 @@ def _big(case):
     rs = numpy.random.RandomState(n + d + k)
     X = numpy.round(rs.uniform(-4, 4, size=(n, d)), 2).astype(case["dtype"])
     cond = "init=random,distinct points,n*k*d=2^%d" % int(numpy.log2(n * d * k))
+    unit = float(case.get("unit", 1.0))
+    if "unit" in case:
+        # the same cloud expressed in another unit (1e-30 ... 1e150): Manhattan geometry has no preferred scale
+        X = (X.astype(numpy.float64) * unit).astype(case["dtype"])
+        cond = "init=%s,distinct points,data in units far from 1" % case["init"]
 
     def bad(kind, msg):
         viol.append({"sig": "KMeansL1L2|%s|%s" % (kind, cond), "msg": "%s shape=%r dtype=%s" % (msg, case["shape"], case["dtype"])})
     try:
-        m = KMeansL1L2(n_clusters=k, norm="L1", init="random", n_init=1, max_iter=3, random_state=0).fit(X)
+        m = KMeansL1L2(n_clusters=k, norm="L1", init=case.get("init", "random"), n_init=1, max_iter=case.get("max_iter", 3), random_state=case.get("rs", 0)).fit(X)
         C = numpy.asarray(m.cluster_centers_, dtype=numpy.float64)
         lab = numpy.asarray(m.labels_)
         D = numpy.empty((n, k))
         X64 = X.astype(numpy.float64)
         for j in range(k):
             D[:, j] = numpy.abs(X64 - C[j]).sum(axis=1)
-        tol = 1e-6 if case["dtype"] == "float64" else 1e-3
+        tol = (1e-6 if case["dtype"] == "float64" else 1e-3) * unit
         own = D[numpy.arange(n), lab]
         if lab.shape != (n,) or lab.min() < 0 or lab.max() >= k:
             bad("L1 labels invalid", "")
@@ -69,7 +80,7 @@ def _big(case):
             bad("L1 label is not a nearest centre", "%d of %d training points, first row %d" % (len(w), n, w[0]))
         if abs(float(m.inertia_) - D.min(axis=1).sum()) > tol * n:
             bad("L1 inertia_ != sum of distances to nearest centre", "%r vs %r" % (m.inertia_, D.min(axis=1).sum()))
-        if (C < X64.min(axis=0) - 1e-9).any() or (C > X64.max(axis=0) + 1e-9).any() or not numpy.isfinite(C).all():
+        if (C < X64.min(axis=0) - 1e-9 * unit).any() or (C > X64.max(axis=0) + 1e-9 * unit).any() or not numpy.isfinite(C).all():
             bad("L1 centre outside data range", "")
         pl = numpy.asarray(m.predict(X))
         if (D[numpy.arange(n), pl] > D.min(axis=1) + tol).any():
